@@ -161,7 +161,7 @@ pub fn instrument(plan: &Arc<dyn ExecutionPlan>, reg: &mut Vec<Probe>) -> DFResu
 /// deep copy with fresh operator state
 pub fn fresh(plan: &Arc<dyn ExecutionPlan>) -> DFResult<Arc<dyn ExecutionPlan>> {
     let kids: Vec<Arc<dyn ExecutionPlan>> = plan.children().into_iter().map(fresh).collect::<DFResult<_>>()?;
-    if kids.is_empty() { Ok(Arc::clone(plan)) } else { Arc::clone(plan).with_new_children(kids) }
+    if kids.is_empty() { Ok(Arc::clone(plan)) } else { Arc::clone(plan).with_new_children(kids)?.reset_state() }
 }
 
 /// all nodes of a plan in post-order (children before parents) with child indices
@@ -224,6 +224,10 @@ pub fn sql_corpus(tabs: &[Tab]) -> Vec<(String, String)> {
     v.push(("scalar_sub".into(), format!("SELECT c0, (SELECT max(c0) FROM {b}) FROM {a}")));
     v.push(("values".into(), "SELECT * FROM (VALUES (1, 'a'), (2, 'b'), (3, NULL)) v(x, y) WHERE x > 1".to_string()));
     v.push(("empty".into(), format!("SELECT c0 FROM {a} WHERE false")));
+    // witnesses of C29 findings (constant column over an empty input; pushed-down limit smaller than a partition; union with an empty constant input)
+    v.push(("const_on_empty".into(), format!("SELECT c0, 5 AS k FROM {a} WHERE c0 > 100")));
+    v.push(("limit_small".into(), format!("SELECT c0 FROM {a} LIMIT 1 OFFSET 1")));
+    v.push(("union_const_empty".into(), format!("SELECT 'a' AS x FROM {a} WHERE c0 > 100 UNION ALL SELECT 'b' AS x FROM {b}")));
     v.push(("case_proj".into(), format!("SELECT CASE WHEN c0 > 1 THEN c0 ELSE -c0 END, c0 IS NULL FROM {b} WHERE c0 IS NOT NULL OR c1 IS NULL")));
     v
 }
